@@ -72,3 +72,6 @@ pub mod dl {
 pub mod t1 {
     include!("t1_twins.rs");
 }
+pub mod f2c {
+    include!("f2c_content.rs");
+}
